@@ -103,7 +103,19 @@ pub fn run(ctx: &mut Ctx) {
                 let got = obj.is_valid_history(h.iter().map(|(o, r)| (ops[*o].clone(), rets[*r].clone())));
                 let mut m = Register('A');
                 let want = h.iter().all(|(o, r)| m.invoke(&ops[*o]) == rets[*r]);
-                ctx.check(&case, "valid-history", &["SEQ.is_valid_step.ensures.iff-invoke-eq"], got == want, format!("{}", got), format!("{}", want));
+                ctx.check(&case, "valid-history", &["SEQ.is_valid_step.ensures.iff-invoke-eq", "SQH.is_valid_history.ensures.true-iff-every-step-is-the-invoke-step",
+                    "SQH.is_valid_history.loop1.invariant.accepted-so-far", "SQH.is_valid_history.loop1.invariant.stopped-at-the-first-rejected-step"], got == want, format!("{}", got), format!("{}", want));
+                // the object afterwards: the state after the accepted prefix (`all` stops at the first rejected step;
+                // `Register::is_valid_step` leaves the register unchanged when it rejects)
+                let mut w = Register('A');
+                for (o, r) in h.iter() {
+                    let mut probe = w.clone();
+                    if probe.invoke(&ops[*o]) != rets[*r] { break; }
+                    w = probe;
+                }
+                let case2 = format!("register.history-state:{:?}", h);
+                ctx.check(&case2, "valid-history-state", &["SQH.is_valid_history.ensures.accepted-history-leaves-the-state-after-all-steps",
+                    "SQH.is_valid_history.ensures.rejected-history-stops-at-the-first-rejected-step", "SQH.is_valid_history.loop1.invariant.accepted-so-far"], obj == w, format!("{:?}", obj), format!("{:?}", w));
             }
         }
         hist = next;
